@@ -10,7 +10,7 @@ Next == /\ l <= Len(Rec)
                truth == [cdps |-> t.rdhs_seen, pht |-> t.trig[4], version |-> t.rdh_version, chips |-> ev.chips, order |-> ev.order]
                exp == ExpectedCodes(ev.cfg, truth, ev.stave)
                obs == {ev.codes[i] : i \in 1..Len(ev.codes)} \cap Watched
-           IN IF exp = obs THEN TRUE ELSE PrintT(<<"REJECT", l, "expected", exp, "observed", obs>>)
+           IN IF exp = obs THEN TRUE ELSE PrintT("REJECT " \o ToJson([l |-> l, tag |-> "codes", expected |-> exp, observed |-> obs]))
         /\ l' = l + 1
 Spec == Init /\ [][Next]_l
 Accepted == IF TLCGet("stats").diameter - 1 = Len(Rec) THEN TRUE
